@@ -413,17 +413,17 @@ def oracle(case, obs):
     if k == "rotate":
         for i, s in enumerate(obs["steps"]):
             where = f"after hook #{i + 1} {s['hook']}({s['flow']}) at clock {s['clock']} (pattern {case['pattern']}, {s['files']} stream files)"
-            if s["raised"]:
-                v.append({"key": "save-hook-raised", "what": f"{where}: the hook raised {s['raised']}"})
-                break
             if s["fin"] != "clean":
                 v.append({"key": "stream-file-incomplete", "what": f"{where}: a stream file does not read cleanly: {s['fin']}"})
                 break
             if s["ids"] != s["expected"]:
-                v.append({"key": "stream-files-missing-finished-flow", "what": f"{where}: stream files hold {s['ids']}, finished matching flows are {s['expected']}"})
+                v.append({"key": "stream-files-missing-finished-flow", "what": f"{where}: stream files hold {s['ids']}, finished matching flows are {s['expected']}" + (f" (the hook raised {s['raised']})" if s["raised"] else "")})
                 break
             if s["bad_state"]:
                 v.append({"key": "stream-file-content", "what": f"{where}: {s['bad_state']} read back with a different state"})
+                break
+            if s["raised"]:
+                v.append({"key": "save-hook-raised", "what": f"{where}: the hook raised {s['raised']}"})
                 break
         return v
     if k == "savehooks":
